@@ -2497,6 +2497,9 @@ class SequenceAndSetBase(base.ConstructedAsn1Type):
 
     def _cloneComponentValues(self, myClone, cloneValueFlag):
         if self._componentValues is noValue:
+            # a schema object (the placeholder of an unset member) stays
+            # one: a freshly made record counts as an empty value
+            myClone.reset()
             return
 
         if not self._componentValues:
